@@ -53,10 +53,17 @@ def run(page_count, fw, schedule, workdir, symlink=False, device_id='28e9:0189',
     dfu = load_dfu()
     clock = dfusim.Clock()
     dev = dfusim.Device(page_count, clock, schedule)
-    path = os.path.join(workdir, 'firmware.bin')
-    for p in (path, os.path.join(workdir, 'firmware-v2.bin')):
+    # one run in three: a file name with glob metacharacters, next to a file that the name would match as a PATTERN
+    odd_name = len(fw) % 3 == 1
+    path = os.path.join(workdir, 'fw[v2].bin' if odd_name else 'firmware.bin')
+    for p in (path, os.path.join(workdir, 'firmware-v2.bin'), os.path.join(workdir, 'fwv.bin'), os.path.join(workdir, 'fw2.bin'),
+              os.path.join(workdir, 'firmware.bin'), os.path.join(workdir, 'fw[v2].bin')):
         if os.path.lexists(p):
             os.remove(p)
+    if odd_name:
+        for decoy in ('fwv.bin', 'fw2.bin'):
+            with open(os.path.join(workdir, decoy), 'wb') as f:
+                f.write(b'\x55' * max(1, len(fw) // 2))
     if symlink:
         with open(os.path.join(workdir, 'firmware-v2.bin'), 'wb') as f:
             f.write(fw)
